@@ -89,8 +89,35 @@ FitJudge(obs) ==
                                    ELSE "different content, same identifier"] : p \in bad}),
        pairs |-> (Cardinality(has) * (Cardinality(has) - 1)) \div 2]
 
+\* EDIT AFTER READ on one live object (the Mutate / Read actions of IdentityMC on the real code):
+\*   build base content by route q.s.route, read the identifier (through iso_id, == or repr),
+\*   change the content IN PLACE (mutation q.s.mut of the spec, through one of the ways a user
+\*   has: cell / column assignment on data_raw, properties[...], setattr, model.params[...], ...),
+\*   read the identifier again, optionally undo the edit in place and read once more.
+\* The identifier is a function of the CURRENT content: after the edit it is the identifier of a
+\* freshly built isotherm with the edited content, it differs from the old one iff the spec says
+\* the content changed (Effective, through Canon), == agrees, and undoing restores it.
+EditClauses(q) ==
+   LET eff == Effective(Bases[q.s.base], q.s.mut) IN
+   {c \in {"identifier before the edit = identifier of a fresh isotherm with the base content",
+           "identifier after an in-place edit = identifier of a fresh isotherm with the edited content",
+           "identifier changes iff the content changes",
+           "== with a fresh isotherm of the edited content",
+           "== with a fresh isotherm of the old content iff the content did not change",
+           "undoing the edit in place restores the identifier"} :
+      ~ CASE c = "identifier before the edit = identifier of a fresh isotherm with the base content" -> q.before = q.fresh_base
+          [] c = "identifier after an in-place edit = identifier of a fresh isotherm with the edited content" -> q.after = q.fresh
+          [] c = "identifier changes iff the content changes" -> (q.after # q.before) = eff
+          [] c = "== with a fresh isotherm of the edited content" -> q.eq_fresh
+          [] c = "== with a fresh isotherm of the old content iff the content did not change" -> q.eq_old = ~eff
+          [] c = "undoing the edit in place restores the identifier" -> q.undo = "" \/ q.undo = q.before}
+EditJudge(q) == LET f == EditClauses(q) IN
+                [ok |-> f = {}, failed |-> SetToSeq(f), effective |-> Effective(Bases[q.s.base], q.s.mut),
+                 valid |-> q.s.mut \in MutsOf(Bases[q.s.base])]
+
 Step(q) ==
   CASE q.k = "scenarios" -> [table |-> Table]
+    [] q.k = "edit" -> EditJudge(q)
     [] q.k = "judge" -> Judge(q.obs, q.impl)
     [] q.k = "fit" -> FitJudge(q.obs)
 
